@@ -45,3 +45,29 @@ Example C05_history :
     [OValue (Some 12%Z); OValue (Some 12%Z); ODone; OUser 1; OReadiness; ODone; ODone;
      OValue (Some 13%Z); OValue (Some 13%Z); ODone; OValue (Some 17%Z)].
 Proof. split; [intros c [H|[H|[H|[H|[H|[H|[H|[H|[H|[H|[H|[]]]]]]]]]]]]; discriminate | vm_compute; reflexivity]. Qed.
+
+(* ---- the key is a DICTIONARY (labels matter): CacheKeys.v ------------------------------------------
+   A Workflow's input labels are its children's unconnected channels, so wiring changes the key set.
+   A hit (python dict equality, as Node.cache_hit computes it) means the same key set and equal
+   values key by key; in particular an input that was part of the remembered key and is gone now
+   (it got connected internally), or one that is new (it got disconnected), is a miss. *)
+From PW Require Import CacheKeys CacheKeysProofs.
+
+Theorem C05_hit_iff_same_dictionary : forall now cached, NoDup (keys now) -> NoDup (keys cached) ->
+  (dict_eqb now cached = true <-> forall k, assoc String.eqb k now = assoc String.eqb k cached).
+Proof. intros now cached Ha Hb. split; [apply hit_same_values; assumption | apply same_dict_hits; assumption]. Qed.
+Print Assumptions C05_hit_iff_same_dictionary.
+
+Theorem C05_dropped_or_added_key_is_a_miss : forall now cached k, NoDup (keys now) -> NoDup (keys cached) ->
+  (In k (keys cached) /\ ~ In k (keys now)) \/ (In k (keys now) /\ ~ In k (keys cached)) ->
+  CacheKeys.cache_hit false false now (Some cached) = false.
+Proof.
+  intros now cached k Ha Hb [[H1 H2]|[H1 H2]]; unfold CacheKeys.cache_hit; cbn;
+    [apply (dropped_key_misses now cached k) | apply (added_key_misses now cached k)]; assumption.
+Qed.
+Print Assumptions C05_dropped_or_added_key_is_a_miss.
+
+Theorem C05_no_hit_while_running_or_failed : forall r f now cached, r || f = true ->
+  CacheKeys.cache_hit r f now cached = false.
+Proof. exact no_hit_while_running_or_failed. Qed.
+Print Assumptions C05_no_hit_while_running_or_failed.
